@@ -258,8 +258,12 @@ P("C12", ["LC.Props.C12"], [PATH, v2run("TestVerifC12")],
 
 V1_TB = ["hand-written Lean models LC/Model/V1Tok (Tokenize, TargetRange), LC/Model/V1Glue (exact search, token range, filter "
          "chains, archive pairing, CLI glue), LC/Model/Conc (interleaving semantics)",
-         "stage v1tok compares the tokenizer model with tokenizer.Tokenize on every run; the other v1 models are decision logic "
-         "checked by the property oracles on the real API"]
+         "LC/Model/V1Search (untangle/split/mergeConsecutive/coalesce of FindPotentialMatches)",
+         "stage v1tok compares the tokenizer model with tokenizer.Tokenize, stage v1post the V1Search model with the real "
+         "untangleSourceRanges/splitRanges/mergeConsecutiveRanges/coalesceMatchRanges (on the lists targetMatchedRanges returns and "
+         "on synthetic sorted lists), stage v1exact the exact path of findMatches (literal search, token range, byte range) with "
+         "the real findMatches; the remaining v1 models (filter chains, archive pairing, CLI glue) are decision logic checked "
+         "by the property oracles on the real API"]
 
 P("C13", ["LC.Props.C13", "LC.Props.C17"],
   [rootrun("stringclassifier", "stringclassifier", "overlay/stringclassifier/zz_verif_test.go", "TestVerifC13"),
@@ -270,7 +274,8 @@ P("C13", ["LC.Props.C13", "LC.Props.C17"],
   "confidences in (0,1], all ranges inside the normalised unknown. distinct = (value set, unknown); non-trivial = all",
   "findAll_sound/findAll_first (the literal search returns exactly the occurrences), exact_token_range (the repaired loop "
   "returns first/last token, single-token values included), nearest_exact; with C17's targetRange_ok the reported byte range "
-  "is exactly the copy.",
+  "is exactly the copy. Stage v1exact runs the real findMatches (exact path) on every planted case and compares its "
+  "Offset/Extent list with the model's findAllIndex -> exactRange -> targetRange.",
   ["DiffSpec.equalInputs for confidence 1.0", "token-aligned copies (the property's reading, DESIGN §6 C13)"], trusted=V1_TB, regen=["unicode"])
 
 P("C14", ["LC.Props.C14"],
@@ -308,12 +313,16 @@ P("C16", ["LC.Props.C16", "LC.Props.C13"],
 P("C17", ["LC.Props.C17"],
   [rootrun("stringclassifier/searchset", "searchset", "overlay/searchset/zz_verif_test.go", "TestVerifC17")],
   "Tokenize on generated strings (Unicode, punctuation, invalid UTF-8, random bytes, repetitive low-vocabulary text) compared "
-  "with the model and checked for text/offset/order/coverage; FindPotentialMatches on source/target pairs (target contains / "
-  "edits / is unrelated to the source): every candidate non-empty, ordered, inside the token bounds, TargetRange inside the "
-  "string. distinct = input; non-trivial = more than one token / at least one candidate",
-  "tokenize_faithful, uncovered_is_space, targetRange_ok, encode_decode are proved for EVERY byte string; the stage bounds of "
-  "FindPotentialMatches (untangle/split/merge/coalesce) are established by the oracle on the implementation, not by a theorem.",
-  ["U+FFFD is not punctuation in the Go tables (ValidPunct)"], trusted=V1_TB, regen=["unicode"])
+  "with the model and checked for text/offset/order/coverage (every byte of every character); FindPotentialMatches on "
+  "source/target pairs (target contains / edits / is unrelated to the source): every candidate non-empty, ordered, inside the "
+  "token bounds, TargetRange inside the string; the post-processing stages also on synthetic sorted lists (400 quick / 60000 "
+  "thorough), model and real functions compared. distinct = input; non-trivial = more than one token / at least one candidate",
+  "tokenize_faithful, uncovered_is_space, targetRange_ok, encode_decode are proved for EVERY byte string; post_inv / post_ne / "
+  "candidate_byte_range prove that untangle/split/mergeConsecutive/coalesce keep every candidate non-empty, ordered by target "
+  "position, inside the token bounds and convertible to a byte range start <= end inside the target, for EVERY list ordered by "
+  "TargetStart with non-empty in-bounds ranges; that targetMatchedRanges + sort.Sort deliver such a list is monitored on every "
+  "recorded list (targetMatchedRanges is not modelled).",
+  ["U+FFFD is not punctuation in the Go tables (ValidPunct)", "targetMatchedRanges output: ordered by TargetStart after sort.Sort, ranges non-empty and in bounds (monitored)"], trusted=V1_TB, regen=["unicode"])
 
 P("C18", ["LC.Props.C18"],
   [rootrun("commentparser", "commentparser", "overlay/commentparser/zz_verif_test.go", "TestVerifC18")],
